@@ -150,6 +150,22 @@ def classify(rule, tally):
         rule.policy = "longest"
         rule.policy_why = "greedy class repeat then a literal: backtracking yields the last occurrence"
         return
+    # a concatenation of single character classes, each possibly under a greedy repeat (no group, alternation or
+    # lazy quantifier): Python's leftmost-greedy match is the longest match.  (Assumption of the trusted base:
+    # checked exhaustively for all such patterns of <= 4 items over {a, b, [ab]} x {'', ?, *, +, {0,2}, {1,2}} on all
+    # strings of length <= 6 -- 14.1 million cases, no counterexample; scratch experiment recorded in DESIGN.md 10.6.)
+    def class_like(item):
+        if rx._single_set(item) is not None:
+            return True
+        op, av = item
+        if op == sc.MAX_REPEAT:
+            sub = list(av[2])
+            return len(sub) == 1 and rx._single_set(sub[0]) is not None
+        return False
+    if items and all(class_like(it) for it in items):
+        rule.policy = "longest"
+        rule.policy_why = "sequence of greedy single-class repeats: leftmost-greedy = longest (assumption, exhaustively tested on small instances)"
+        return
     raise RxUnsupported("match policy of rule %s (%r) not characterised" % (rule.name, rule.pattern))
 
 
@@ -272,7 +288,7 @@ def norule_re(state):
 # ------------------------------------------------------------------------------------
 # effects of token functions and error(), by pysym on their source
 # ------------------------------------------------------------------------------------
-def function_effect(func, lexeme_re=None, is_error=False):
+def function_effect(func, lexeme_re=None, is_error=False, init_type="T"):
     """Runs the function body symbolically on a token whose value is an arbitrary string (of the
     rule's language).  Returns a list of path summaries:
     {outcome: 'token'|'none'|'raise', value: pysym value, pushes:[cls], pops:int, index_delta:..., exc: name}"""
@@ -294,7 +310,7 @@ def function_effect(func, lexeme_re=None, is_error=False):
 
     class Tok:
         def __init__(self):
-            self.attrs = {"value": value, "type": "T", "index": SInt(z3.Int("tok_index")), "lineno": SInt(z3.Int("tok_line"))}
+            self.attrs = {"value": value, "type": init_type, "index": SInt(z3.Int("tok_index")), "lineno": SInt(z3.Int("tok_line"))}
 
         def pysym_getattr(self, ctx, interp, name):
             if name in self.attrs:
@@ -374,3 +390,45 @@ def function_effect(func, lexeme_re=None, is_error=False):
             d["value"] = v
         paths.append(d)
     return paths, run
+
+
+def cond_to_regex(conds, n_skip=0):
+    """Path condition over the variable `lexeme` -> z3 regex over the lexeme (for folding into the single
+    membership query).  Supports boolean combinations of InRe / Contains / prefix / suffix / equality with
+    constants; anything else raises RxUnsupported."""
+    lex = z3.String("lexeme")
+    anyre_ = z3.Star(to_z3(ANYCH))
+
+    def rec(c):
+        if z3.is_true(c):
+            return anyre_
+        if z3.is_false(c):
+            return z3.Empty(z3.ReSort(z3.StringSort()))
+        if z3.is_not(c):
+            return z3.Intersect(anyre_, z3.Complement(rec(c.arg(0))))
+        if z3.is_and(c):
+            parts = [rec(a) for a in c.children()]
+            return parts[0] if len(parts) == 1 else z3.Intersect(*parts)
+        if z3.is_or(c):
+            parts = [rec(a) for a in c.children()]
+            return parts[0] if len(parts) == 1 else z3.Union(*parts)
+        k = c.decl().kind()
+        if k == z3.Z3_OP_SEQ_IN_RE and c.arg(0).eq(lex):
+            return c.arg(1)
+        if k == z3.Z3_OP_SEQ_CONTAINS and c.arg(0).eq(lex) and z3.is_string_value(c.arg(1)):
+            return z3.Concat(anyre_, z3.Re(c.arg(1)), anyre_)
+        if k == z3.Z3_OP_SEQ_PREFIX and c.arg(1).eq(lex) and z3.is_string_value(c.arg(0)):
+            return z3.Concat(z3.Re(c.arg(0)), anyre_)
+        if k == z3.Z3_OP_SEQ_SUFFIX and c.arg(1).eq(lex) and z3.is_string_value(c.arg(0)):
+            return z3.Concat(anyre_, z3.Re(c.arg(0)))
+        if z3.is_eq(c):
+            a, b = c.arg(0), c.arg(1)
+            if a.eq(lex) and z3.is_string_value(b):
+                return z3.Re(b)
+            if b.eq(lex) and z3.is_string_value(a):
+                return z3.Re(a)
+        raise RxUnsupported("path condition of a token function is not a regular constraint on the lexeme: %s" % str(c)[:80])
+    parts = [rec(c) for c in conds[n_skip:]]
+    if not parts:
+        return anyre_
+    return parts[0] if len(parts) == 1 else z3.Intersect(*parts)
